@@ -163,6 +163,20 @@ Theorem C14_failed_op_stored_eq_served_needs_restoring_writes :
     served s' = served multi_base /\ aget (st_lw s') 2 = Some 5 /\ sv s' 2 = Some (SStore "a2" Up false [] (4, 0, 0) 1 1 0 false).
 Proof. exact multi_fault_witness. Qed.
 
+(* ---------- a new leader loads the same storage (LoadClusterInfo; Storage.LoadStores pages through every record) ---------- *)
+(* what the new leader serves for an id is exactly the stored record with its weight keys, for EVERY id (no record is skipped) *)
+Theorem C14_new_leader_serves_stored : forall s id, sproj (restart s) id = stored_proj s id.
+Proof. exact restart_serves_stored_pf. Qed.
+(* so a store whose served record agrees with storage - what every successful change establishes (C14_success_implies_stored_eq_served) -
+   is served unchanged: a tombstone stays a tombstone, a live address stays taken *)
+Theorem C14_new_leader_keeps_agreeing_store : forall s id, agree s id -> sproj (restart s) id = sproj s id.
+Proof. exact restart_keeps_agreeing_store_pf. Qed.
+Theorem C14_new_leader_keeps_storage :
+  forall s, st_meta (restart s) = st_meta s /\ st_lw (restart s) = st_lw s /\ st_rw (restart s) = st_rw s.
+Proof. exact restart_keeps_storage_pf. Qed.
+Theorem C14_reload_idempotent : forall s id, sproj (restart (restart s)) id = sproj (restart s) id.
+Proof. exact restart_idempotent_pf. Qed.
+
 Print Assumptions C14_state_one_way.
 Print Assumptions C14_tombstone_absorbing.
 Print Assumptions C14_tombstone_refused.
@@ -181,3 +195,7 @@ Print Assumptions C14_multi_fault_layer_refines_single_fault_model.
 Print Assumptions C14_failed_op_stored_eq_served_needs_restoring_writes.
 Print Assumptions C14_strict_label_mismatch_refused.
 Print Assumptions C14_tiflash_refused_without_placement_rules.
+Print Assumptions C14_new_leader_serves_stored.
+Print Assumptions C14_new_leader_keeps_agreeing_store.
+Print Assumptions C14_new_leader_keeps_storage.
+Print Assumptions C14_reload_idempotent.
